@@ -48,8 +48,8 @@ prop("C14",
      required_probes=["timed_out", "owner_replied", "timer_and_io_same_batch", "timer_and_disconnect_same_batch", "timeout_precedence:request", "timeout_precedence:element", "timeout_precedence:default", "timeout_refused", "expiry_after_resolution"])
 
 prop("C02", opts={"memprop": "C02"}, also=["C03/unexpected-response", "C03/missing-response", "C03/wrong-response", "C05/missing-response", "C14/no-timeout-answer", "C14/unexpected-response"],
-     mix=[("c02", "default", 3), ("c02", "small", 1), ("base", "default", 1), ("base", "batch1", 0.5)],
-     quick_mix=[("c02", "default", 2), ("base", "default", 1)],
+     mix=[("c02", "default", 3), ("c02", "small", 1), ("base", "default", 1), ("base", "batch1", 0.5), ("c03", "default", 1)],
+     quick_mix=[("c02", "default", 2), ("base", "default", 1), ("c03", "default", 1)],
      quick_s=25, thorough_s=600,
      rule="(a) hostile JSON-RPC shapes (every method name, missing/mistyped/duplicated members, ids of every JSON type, batches, response objects as requests) checked by a per-connection ledger of outstanding ids; "
           "(b) well-formed traffic checked frame by frame against the reference model, where a batch must behave like its members sent one by one. non-trivial: >=3 requests with id answered; distinct by trace hash",
